@@ -118,3 +118,11 @@ Proof.
   - eapply run_reachable; [apply reach_init | exact E].
   - cbv in E. injection E as <-. split; reflexivity.
 Qed.
+
+(** (A) the tie to /repo's current source: every function this property's models were transcribed from has, in the
+    tree this run is checking, the normalised source it had when the models were validated (hashes regenerated from
+    /repo into gen/Generated.v on every run; pins in gen/SourcePins.v).  A change to one of them invalidates the
+    transcription until it is re-validated. *)
+From UsimGen Require SourcePins Pin_C09.
+Theorem C09_modelled_source_unchanged : forallb SourcePins.pin_ok Pin_C09.pins = true.
+Proof. exact Pin_C09.src_unchanged. Qed.
